@@ -77,7 +77,12 @@ pub fn compile(body: &str) -> Compiled {
     match r {
         Ok(Ok(d)) => if errs.is_empty() { Compiled::Ok(d.stmts) } else { Compiled::Reject(errs) },
         Ok(Err(e)) => if errs.is_empty() { Compiled::ParseError(e) } else { let mut v = errs; v.push(e); Compiled::Reject(v) },
-        Err(p) => Compiled::Panic(if let Some(s) = p.downcast_ref::<String>() { s.clone() } else if let Some(s) = p.downcast_ref::<&str>() { s.to_string() } else { "?".into() }),
+        Err(p) => {
+            let m = if let Some(s) = p.downcast_ref::<String>() { s.clone() } else if let Some(s) = p.downcast_ref::<&str>() { s.to_string() } else { "?".into() };
+            // an error was already recorded by emit_error! before the panic: the real macro entry point resumes the panic after
+            // collecting the diagnostics, so the user sees a compile error either way; reported as a rejection that also panicked
+            if errs.is_empty() { Compiled::Panic(m) } else { let mut v = errs; v.push(format!("(then panicked: {})", m)); Compiled::Reject(v) }
+        }
     }
 }
 
